@@ -63,10 +63,37 @@ def inline(e):
         # substitute_funs wants the body over de-Bruijn vars
         body = _defn(m.group(1), z3.Var(0, z3.BitVecSort(n)), z3.Var(1, z3.BitVecSort(n)))
         subs.append((d, body))
-    if not subs:
-        return e
-    out = [z3.substitute_funs(x, *subs) for x in exprs]
+    out = [z3.substitute_funs(x, *subs) for x in exprs] if subs else exprs
+    if "f_evm_exp_256" in decls:
+        out = [_inline_small_exp(x) for x in out]
     return out[0] if single else out
+
+
+EXP_INLINE_MAX = 8
+
+
+def _inline_small_exp(e):
+    """standard interpretation of f_evm_exp_256(x, c) for a concrete exponent c <= EXP_INLINE_MAX: repeated product"""
+    pairs, seen, stack = [], set(), [e]
+    while stack:
+        t = stack.pop()
+        i = t.get_id()
+        if i in seen:
+            continue
+        seen.add(i)
+        if z3.is_quantifier(t):
+            stack.append(t.body())
+            continue
+        if z3.is_app(t) and t.decl().name() == "f_evm_exp_256" and t.num_args() == 2:
+            c = z3.simplify(t.arg(1))
+            if z3.is_bv_value(c) and c.as_long() <= EXP_INLINE_MAX:
+                r = z3.BitVecVal(1, 256)
+                for _ in range(c.as_long()):
+                    r = r * t.arg(0)
+                pairs.append((t, r))
+        stack.extend(t.children())
+    # innermost first is not needed: substitute handles simultaneous replacement of the listed terms
+    return z3.substitute(e, *pairs) if pairs else e
 
 
 def has_abstraction(e, include_exp=True) -> bool:
